@@ -8,3 +8,4 @@ from . import c_connectedpixels  # noqa
 from . import c_sparse  # noqa
 from . import c_darkflat  # noqa
 from . import c_splat  # noqa
+from . import c_localmaxlabel  # noqa
